@@ -490,7 +490,8 @@ def r_case(case, res):
             items.append(f'ROp (RAddr {cn(it[1])})')
         elif k == 'build':
             items.append(f'RBuild {r_build(res["builds"][bi])}'); bi += 1
-    return f'(mkRC {utx} {cx} {clist(items)})'
+    keys = res.get('keys') if res.get('keys_inst_ok', True) else []       # keys that differ between instances: no table
+    return f'(mkRC {utx} {cx} {clist(items)} {clist([cn(k) for k in (keys or [])])})'
 
 
 def render(part):
